@@ -3,7 +3,7 @@
 From Coq Require Extraction.
 From Coq Require Import ExtrOcamlBasic.
 From Coq Require Import List NArith ZArith.
-From BB Require Import Ebnf Chars Lexer G4Data Syntax Parser Graph Values Eval Loader.
+From BB Require Import Ebnf Viable Chars Lexer G4Data Syntax Parser Graph Values Eval Loader.
 
 Definition bb_lex (w:list N) (K F:nat) : option (list token) := lex lex_g lex_rules w K F.
 Definition bb_recognise (toks:list nat) (K F:nat) : option bool :=
@@ -18,4 +18,8 @@ Definition bb_parse (w:list N) (K F:nat) : option (option script) :=
 Definition bb_loads (fs:list (str * list N)) (cwd:str) (w:list N) : outcome prog := loads lex_g lex_rules fs cwd w.
 Definition bb_load (fs:list (str * list N)) (cwd:str) (filename:str) : outcome prog := load lex_g lex_rules fs cwd filename.
 
-Extraction "bbmodel.ml" bb_lex bb_recognise bb_parse bb_loads bb_load instantiate edges nodes.
+(* is the token sequence (without EOF) a prefix of a sentence of `start`? *)
+Definition bb_viable (toks:list nat) (K F:nat) : option bool :=
+  viable nat nat Nat.eqb pg toks K F (Ref start_rule).
+
+Extraction "bbmodel.ml" bb_lex bb_recognise bb_viable bb_parse bb_loads bb_load instantiate edges nodes.
